@@ -275,7 +275,7 @@ pub fn run(sink: &mut Sink, rng: &mut Rng, args: &Args) {
             } else {
                 sink.oracle_fail(None, "JSONPath extraction differs from the value at that path of the document", case.clone());
             }
-        } else if matches!(r2, Err(false)) || jb.iter().all(|b| b.is_none()) {
+        } else if matches!(r2, Err(false)) == (0..n).any(|i| jb[i].is_some() && (scalar || i == 0) && ptexts[if scalar { 0 } else { i }].is_some()) {
             sink.oracle_ok();
         } else {
             sink.oracle_fail(None, "an invalid JSONPath must be refused with an error", case.clone());
